@@ -458,15 +458,17 @@ int main(int argc, char** argv) {
 	pc.jobs = A.jobs;
 	pc.rundir = A.rundir;
 	pc.repo = A.repo;
+	pc.max_restarts_per_unit = 5000;
 	int depth_done = 0;
 	for (int depth = 1; depth <= maxdepth && !frontier.empty(); depth++) {
 		if (vf::deadline_passed()) { top.capped(vf::strf("deadline before depth %d", depth)); break; }
 		// shard the frontier; workers write successors (canon \t json) to files
 		size_t nunits = std::min<size_t>(frontier.size(), (size_t) A.jobs * 8);
 		vf::run_pool(nunits, pc,
-			[&](size_t u, const std::vector<std::string>&, long, Stats& st) {
+			[&](size_t u, const std::vector<std::string>& skips, long, Stats& st) {
 				std::string path = A.rundir + "/succ." + std::to_string(depth) + "." + std::to_string(u);
 				FILE* f = fopen(path.c_str(), "w");
+				std::set<std::string> skip(skips.begin(), skips.end()); // histories that killed a worker (already reported)
 				for (size_t i = u; i < frontier.size(); i += nunits) {
 					if (vf::deadline_passed()) { st.capped(vf::strf("deadline inside depth %d", depth)); break; }
 					const Node& nd = frontier[i];
@@ -481,6 +483,7 @@ int main(int argc, char** argv) {
 						History h2 = nd.h;
 						h2.push_back(op);
 						J cj = J::obj().set("init", nd.init).set("version", nd.ver).set("history", hist_json(h2));
+						if (skip.count(cj.dump())) continue;
 						vf::set_inflight(cj.dump());
 						std::string c;
 						std::string err = run_history(nd.init, nd.ver, h2, st, &c, nullptr);
@@ -500,7 +503,8 @@ int main(int argc, char** argv) {
 				std::string lastop = "?";
 				if (cj.has("history") && cj["history"].size()) lastop = cj["history"][cj["history"].size() - 1][0].str();
 				parent.violation(lastop + ":crash:" + ci.key(), "worker died (" + ci.cls + " in " + ci.frame + ") while executing " + inflight.substr(0, 400), cj);
-				return ""; // the rest of this shard is lost: the level is not exhaustive
+				parent.add("transitions");
+				return inflight; // redo the shard without this history (the state it would have reached is not explored further)
 			},
 			top);
 		// collect successors
